@@ -568,6 +568,9 @@ def shrink_case(prop, c, r, budget_s=8.0):
         return c, r
 
 
+SRC_TIE_STATE = {}      # how the source-level tie stood on this run (informational; never a verdict)
+
+
 def write_replay(prop, kind, case, rec, broken, seed):
     os.makedirs(os.path.join(ROOT, 'replays'), exist_ok=True)
     ident = sha((case['line'] if case else '') + '|' + '|'.join(b[:80] for b in broken) + '|' + kind)
@@ -582,6 +585,7 @@ def write_replay(prop, kind, case, rec, broken, seed):
           'expected': (rec or {}).get('expected'), 'observed': (rec or {}).get('observed') or (case['real'] if case else None),
           'model': case.get('model') if case else None, 'what': (rec or {}).get('what'),
           'broken': broken, 'replay_cmd': f'./check {prop} --replay {path}', 'seed': seed,
+          **({'source_tie': SRC_TIE_STATE} if SRC_TIE_STATE else {}),
           **({'shrunk': case['shrunk']} if case and case.get('shrunk') else {})},
          os.path.join(ROOT, path))
     return path
@@ -659,6 +663,7 @@ def main():
         return replay(prop, args[args.index('--replay') + 1])
     t0 = time.time()
     broken, info = build_and_audit(prop, tier)
+    SRC_TIE_STATE.update(info.get('source_tie') or {})
     cases, errors, n_spec = explore(prop, tier, seed, info.get('driver'))
     for e in errors:
         broken.append('correspondence could not run: ' + e)
